@@ -425,6 +425,13 @@ fn cfi_with_storage<'a, R: Reader<Offset = usize> + 'a, St: UnwindContextStorage
         }
     };
     let provider: CieProvider<R> = CieProvider::new(case);
+    {
+        // the iterator through std's Iterator interface, the way `collect()` uses it: the lower
+        // bound of size_hint is what the collection reserves up front
+        ctx.enter("eh_frame_hdr.table.iter.collect");
+        let v: Vec<_> = Iterator::collect(table.iter(&bases));
+        ev!(ctx, "collected {}", v.len());
+    }
     let mut it = table.iter(&bases);
     let mut rows = 0u64;
     drain(ctx, "eh_frame_hdr.table.iter.next", hb.len(), Fused::No, || it.next(), |ctx, (a, b)| {
